@@ -219,7 +219,7 @@ theorem trackOne_noLoss (c : Cfg) (o : TrackOpts) (hf : o.force = false) (s : St
     holds the bytes readable at `p` (fails for K1 and when the metadata short-cut is unsound) -/
 def CarrySafeAt (c : Cfg) (tob : Option Tob) (s : St) (p : Path) : Prop :=
   ∀ e r b n d, s.findEnt p = some e → s.recs e = some r → s.readThrough p = some (b, n) →
-    (s.digestDiff c r (tob.getD c.tob) = .different d ∨ (s.digestDiff c r (tob.getD c.tob) = .same ∧ r.cur = some d)) →
+    (s.carryDiff c r (tob.getD c.tob) = .different d ∨ (s.carryDiff c r (tob.getD c.tob) = .same ∧ r.cur = some d)) →
     NoCollision s (addrOf p d) b
 
 theorem carryInOne_noLoss (c : Cfg) (tob : Option Tob) (s : St) (p : Path) (hs : CarrySafeAt c tob s p) :
@@ -238,7 +238,7 @@ theorem carryInOne_noLoss (c : Cfg) (tob : Option Tob) (s : St) (p : Path) (hs :
       simp only
       split
       · exact noLoss_of_eq rfl rfl
-      · cases hdd : s.digestDiff c r (tob.getD c.tob) with
+      · cases hdd : s.carryDiff c r (tob.getD c.tob) with
         | actualMissing => exact NoLoss.refl s
         | different a =>
           simp only
